@@ -150,7 +150,7 @@ ObsDevEnabled(d, feat) ==
   CASE d = "Dev_DecodePerRead" ->       \* text is decoded, CR/CRLF-normalised and stripped of escapes per read, not per
                                         \* stream: a multi-byte character, a CRLF or an escape sequence split by a read
                                         \* boundary is mangled / doubled / kept
-         feat.payload \in {"utf8", "crlf", "ansi"} /\ feat.size > 1024 /\ feat.view \in {"out", "iter"}
+         feat.payload \in {"utf8", "crlf", "ansi"} /\ feat.multiread /\ feat.view \in {"out", "iter"}   \* multiread: more than one read size, or written in several chunks
     [] d = "Dev_DollarKeepsEscapes" ->  \* $() does not strip terminal escape sequences (the other text views do)
          feat.payload = "ansi" /\ feat.view = "dollar"
     [] OTHER -> FALSE
